@@ -19,6 +19,7 @@ All results are `ok …`: no panic, no out-of-bounds access, no overflow in eith
 import Sds.Proofs.Glue2
 import Sds.Proofs.GenEqIdx
 import Sds.Proofs.GenEqBuild
+import Sds.Proofs.GenEqLoop
 
 namespace Sds.C02
 open Sds Outcome
@@ -262,5 +263,24 @@ example : Generated.gen_SparseBuilder_get_buckets .checked (2 ^ 64 - 1) 64 = ok 
 theorem sparse_select_as_translated_from_source (m : Mode) (s : Sparse) (r : Nat) :
     Generated.gen_SparseVector_select m s r = s.select m r :=
   GenEq.sparse_select_eq m s r
+
+/-! **The queries of `SparseVector` as translated from the source on this run — bucket scans included**
+(`Generated/FnsLoop.lean`): `get` (forward scan of one bucket with its early `return`), `rank` (backward scan),
+`predecessor` (backward scan, then the skip over unset bits), `successor` (two forward scans), `count_zeros`.  Each
+`while` becomes `loopM` over the position the body updates, with a `return` inside the loop carried out as `Ctl.ret`.  On
+every vector that encodes a set or multiset (`Encodes`, the predicate the builder's output provably satisfies), for every
+argument and both build modes, the code as it is NOW is the model function the theorems above are about.  Outside
+`Encodes` the equations need `low ≤ high` after `upper_bound` (automatic in the checked build) and lengths below 2^64:
+`GenEq.sparse_rank_ne`, … are the witnesses on a hand-made select support that no builder or loader produces. -/
+theorem sparse_queries_as_translated_from_source {s : Sparse} {n w : Nat} {P : List Nat} (hs : s.Encodes n w P)
+    (m : Mode) (i : Nat) :
+    Generated.gen_SparseVector_get m s i = s.get m i ∧
+    Generated.gen_SparseVector_rank m s i = s.rank m i ∧
+    Generated.gen_SparseVector_predecessor m s i = s.predecessor m i ∧
+    Generated.gen_SparseVector_successor m s i = s.successor m i ∧
+    Generated.gen_SparseVector_count_zeros m s = ok s.countZeros :=
+  ⟨GenEq.sparse_get_eq_of_encodes hs m i, GenEq.sparse_rank_eq_of_encodes hs m i,
+   GenEq.sparse_predecessor_eq_of_encodes hs m i, GenEq.sparse_successor_eq_of_encodes hs m i,
+   GenEq.sparse_count_zeros_eq m s⟩
 
 end Sds.C02
